@@ -400,6 +400,7 @@ def check_process(rec):
              f"{proc}_first_entry_is_x0", 0.0)
 
     # ---- generic generator fed the oracle's transition (A_k, chol Q_k): same law
+    # (always through the shape-cached compiled entry points; exec mode applies to the specialised process)
     x0v = jnp.asarray(np.atleast_1d(np.array(rec["x0"], dtype=np.float64)))
     drift = np.stack(orc.As)
     amp = np.stack([np.linalg.cholesky(Q) for Q in orc.Qs])
@@ -412,27 +413,27 @@ def check_process(rec):
         # 1x1 factor (unique up to sign): the scalar wrapper must reproduce the path of the specialised process
         if single:
             sd, sa = drift[0, 0, 0], amp[0, 0, 0]
-            sd, sa = (jnp.asarray(sd), jnp.asarray(sa)) if jit else (float(sd), float(sa))
+            sd, sa = jnp.asarray(sd), jnp.asarray(sa)
         else:
             sd, sa = jnp.asarray(drift[:, 0, 0]), jnp.asarray(amp[:, 0, 0])
         use_wrapper = rec.get("wrapper", True)
         if use_wrapper:
-            G = batched("scalar", jit)(X, jarg(rec["x0"], jit or rec.get("as0d", False)), sd, sa)
+            G = batched("scalar", True)(X, jarg(rec["x0"], True), sd, sa)
             classes.append("scalar_wrapper")
             G = np.asarray(G)[:, :, None]
         else:
-            G = batched("generic", jit)(Xg, x0v, sel(drift), sel(amp))
+            G = batched("generic", True)(Xg, x0v, sel(drift), sel(amp))
         g0, g1, Lg = affine_parts(G)
         pth = g1
     else:
-        g0, g1, Lg = affine_parts(batched("generic", jit)(Xg, x0v, sel(drift), sel(amp)))
+        g0, g1, Lg = affine_parts(batched("generic", True)(Xg, x0v, sel(drift), sel(amp)))
         # the upper-triangular factor of the repository's own test reproduces the IWP path-wise
         up = np.zeros((n, 2, 2))
         for k in range(n):
             dk, sk, ak = orc.dt[k], orc.sigma[k], orc.asp[k]
             up[k] = sk * np.sqrt(dk) * np.array([[np.sqrt(dk * dk / 12.0 + ak), dk / 2.0], [0.0, 1.0]])
             assert np.allclose(up[k] @ up[k].T, orc.Qs[k], rtol=1e-12, atol=0)
-        pth = np.asarray(batched("generic", jit)(Xg, x0v, sel(drift), sel(up)))[1]
+        pth = np.asarray(batched("generic", True)(Xg, x0v, sel(drift), sel(up)))[1]
     require(g0.shape == (n + 1, d), "generic_output_shape", f"{g0.shape}")
     close_el(g0, orc.mean, "generic_fed_transition_mean", orc.mean_abs)
     close_el(g1.reshape(-1), g0.reshape(-1) + Lg @ lat.reshape(-1), "generic_not_affine_in_excitations",
@@ -675,10 +676,10 @@ SEED = st.integers(0, 2 ** 31 - 1)
 
 
 def _steps(draw, tier):
-    return draw(st.sampled_from([1, 2, 3, 3, 4, 5, 6, 8, 12] if tier == "quick" else list(range(1, 13))))
+    return draw(st.sampled_from([1, 2, 4, 4, 7, 7, 12] if tier == "quick" else list(range(1, 13))))
 
 
-def _param(draw, elem, n, p_list=0.6):
+def _param(draw, elem, n, p_list=0.7):
     if draw(st.floats(0, 1)) < p_list:
         return draw(S.vec(n, elem))
     return draw(elem)
@@ -699,7 +700,7 @@ def process_recipes(proc):
             n = _steps(draw, tier)
             r = {"proc": proc, "n": n, "dt": _dt(draw, n), "sigma": _param(draw, SIG, n),
                  "seed": draw(SEED), "as0d": draw(st.booleans()), "generic_single": draw(st.booleans()),
-                 "jit": draw(st.booleans()), "wrapper": draw(st.booleans())}
+                 "jit": draw(st.integers(0, 7)) != 0, "wrapper": draw(st.booleans())}
             if proc == "ou":
                 r["gamma"] = _param(draw, GAM, n)
             if proc == "iwp":
@@ -722,7 +723,7 @@ def process_recipes(proc):
 def generic_recipes(tier):
     @st.composite
     def rec(draw):
-        n = draw(st.sampled_from([1, 2, 3, 4, 6, 12] if tier == "quick" else list(range(1, 13))))
+        n = draw(st.sampled_from([1, 2, 4, 7, 12] if tier == "quick" else list(range(1, 13))))
         mode = draw(st.sampled_from(["matrix", "matrix", "matrix", "scalar", "scalar_args"]))
         if mode == "scalar":
             E = S.dyadic(-2.0, 2.0, 8)
@@ -754,7 +755,7 @@ def model_recipes(tier):
     @st.composite
     def rec(draw):
         proc = draw(st.sampled_from(["wiener", "iwp", "ou"]))
-        n = draw(st.sampled_from([1, 2, 3, 4, 6, 12] if tier == "quick" else list(range(1, 13))))
+        n = draw(st.sampled_from([1, 2, 4, 7, 12] if tier == "quick" else list(range(1, 13))))
         r = {"proc": proc, "n": n, "dt": _dt(draw, n), "name": draw(st.sampled_from(["wp", "iwp", "oup", "gm", "xi"])),
              "seed": draw(SEED), "jit": draw(st.integers(0, 5)) == 0, "nsteps_too": draw(st.booleans()),
              "sigma": _hyper(draw, SIG, n)}
@@ -777,17 +778,17 @@ def model_recipes(tier):
 
 NT = "non-trivial = >= 2 steps and (non-uniform dt or a per-step parameter that actually varies)"
 SUBS = [
-    Sub(name="wiener", check=check_process, strategy=process_recipes("wiener"), quick=96, thorough=4000, shards=4,
+    Sub(name="wiener", check=check_process, strategy=process_recipes("wiener"), quick=72, thorough=4000, shards=3,
         jax=True,
         rule="wiener_process: mean == x0, L L^T == recursion (Q = sigma^2 dt) == kernel int_0^min sigma(t)^2 dt; "
              "generic / scalar generator fed (1, sigma sqrt(dt)) agrees; " + NT),
-    Sub(name="integrated_wiener", check=check_process, strategy=process_recipes("iwp"), quick=128, thorough=6000,
+    Sub(name="integrated_wiener", check=check_process, strategy=process_recipes("iwp"), quick=96, thorough=6000,
         shards=4, jax=True,
         rule="integrated_wiener_process with asperity None / 0 / scalar / per-step: mean == x0 + v0 t, full 2(N+1) "
              "covariance == recursion (A=[[1,dt],[0,1]], Q=sigma^2[[dt^3/3+a dt, dt^2/2],[dt^2/2, dt]]) == kernel "
              "(closed form / Van Loan); generic generator fed (A_k, chol Q_k) has the same law; " + NT),
-    Sub(name="ornstein_uhlenbeck", check=check_process, strategy=process_recipes("ou"), quick=96, thorough=4000,
-        shards=4, jax=True,
+    Sub(name="ornstein_uhlenbeck", check=check_process, strategy=process_recipes("ou"), quick=72, thorough=4000,
+        shards=3, jax=True,
         rule="ornstein_uhlenbeck_process: mean == x0 exp(-int gamma), covariance == recursion (A=e^{-gamma dt}, "
              "Q=sigma^2(1-e^{-2 gamma dt})) == kernel sigma^2(e^{-gamma|t-s|}-e^{-gamma(t+s)}) / Van Loan; "
              "scalar generator agrees path-wise; " + NT),
